@@ -76,6 +76,12 @@ def left_obj(G, name, variant=0):
 def right_obj(G, lname, kind, t):
     if kind == "same":
         return left_obj(G, lname, variant=2)
+    if kind == "pfin":
+        return G.Point(np.array([-6, -10, -2]))
+    if kind == "pinf":
+        return G.Point(np.array([2, 1, 0]))
+    if kind == "pcoll":
+        return G.PointCollection(np.array([[1, 1, 0], [0, 2, 1], [3, -1, 2], [1, 0, 0], [2, 2, 0]]))
     if kind == "ndarray":
         return (np.arange(t.array.size).reshape(t.array.shape) % 5) - 2
     if kind == "ndarray_b":
@@ -89,6 +95,13 @@ def enum_arith(tier, seed):
     for l in LEFT:
         for r in RIGHT:
             for op in OPS:
+                for form in ("operator", "ufunc"):
+                    yield (l, r, op, form)
+    # point (op) point with DIFFERENT finiteness on the two sides: direction - finite point, finite - direction, and
+    # collections whose finite / infinite positions do not line up ("same" only pairs finite with finite, direction with direction)
+    for l in ("point_fin", "point_scaled", "point_inf", "pointcoll"):
+        for r in ("pfin", "pinf", "pcoll"):
+            for op in ("add", "sub"):
                 for form in ("operator", "ufunc"):
                     yield (l, r, op, form)
 
